@@ -1,9 +1,11 @@
 #!/bin/sh
 # developer helper: apply a seeded change to /repo, run the given checks, undo the change.   seedtest.sh <patch.diff> <Cxx>...
 patch="$1"; shift
+export VERIF_EVIDENCE_DIR=$(mktemp -d)
 git -C /repo apply "$patch" || { echo "patch does not apply"; exit 3; }
 for p in "$@"; do
   out=$(/verif/check "$p" 2>&1); rc=$?
   echo "$p rc=$rc :: $(echo "$out" | grep -E 'VIOLATION|failed obligation|UNDECIDED|OK:' | tr '\n' ';' | cut -c1-400)"
 done
 git -C /repo checkout -- . 
+rm -rf "$VERIF_EVIDENCE_DIR"
